@@ -54,6 +54,52 @@ def plain(piece):
     return piece.get("flags") is None and piece.get("width") is None and piece.get("precision") is None and piece.get("trait") == "display"
 
 
+def push_param_by_interp(run, f, cfg, fn):
+    """push_param interpreted on writers in every state (counter 0, 1, 8, 9, 10, 98, 99, 100, 999 x numbered / not, with text
+    and values already collected): it appends exactly the placeholder (+ the new counter when numbered), advances the counter by
+    one and pushes exactly the value it was given - through whatever private helpers it calls.  True when decided"""
+    from ..interp import Interp, Opaque, Unsupported, Diverged
+    bad, rows = [], 0
+    try:
+        for numbered in (False, True):
+            for k in (0, 1, 8, 9, 10, 98, 99, 100, 999):
+                for mark in ("?", "$"):
+                    w = {"counter": k, "placeholder": mark, "numbered": numbered, "string": "SELECT ", "values": [Opaque("v%d" % i) for i in range(min(k, 2))]}
+                    before_vals = list(w["values"])
+                    it = Interp(f)
+                    it.free_opaque = True
+                    it.call_fn(PUSH_PARAM, [w, Opaque("VALUE"), Opaque("backend")])
+                    rows += 1
+                    want_text = "SELECT " + mark + (str(k + 1) if numbered else "")
+                    probs = []
+                    if w.get("string") != want_text:
+                        probs.append("text %r, expected %r" % (w.get("string"), want_text))
+                    if w.get("counter") != k + 1:
+                        probs.append("counter %r, expected %d" % (w.get("counter"), k + 1))
+                    vs = w.get("values")
+                    if not (isinstance(vs, list) and len(vs) == len(before_vals) + 1 and all(a is b for a, b in zip(vs, before_vals)) and
+                            isinstance(vs[-1], Opaque) and vs[-1].tag == "VALUE"):
+                        probs.append("values %r" % (vs,))
+                    if w.get("placeholder") != mark or w.get("numbered") != numbered:
+                        probs.append("placeholder / numbered changed")
+                    if probs:
+                        bad.append("counter %d, numbered=%s: %s" % (k, numbered, "; ".join(probs)))
+    except (Unsupported, Diverged) as e:
+        run.notes.append("C01.R2 push_param outside the interpreter's fragment (%s): decided by its path summary" % e)
+        return False
+    ok = not bad
+    msg = "" if ok else " - NOT: " + " | ".join(bad[:3])
+    for key, what in (("counter", "counter += 1 exactly once and before the text; nothing else written"),
+                      ("text", "appended text is placeholder + post-increment counter"),
+                      ("push", "exactly one values.push(<the parameter>)")):
+        for path in ("numbered", "unconditional"):
+            run.ob("C01.R2", "push_param:path:%s:%s" % (path, key), ok,
+                   "push_param (%s; interpreted on %d writer states incl. counters 9/10 and 99/100): %s%s" % (path, rows, what, msg), sp=fn["sp"], cfg=cfg)
+    from .. import scope
+    scope.check_bound(run, "C01.R2", "push_param:scope", f, [PUSH_PARAM], 1000, cfg, "push_param (counters up to 999)")
+    return True
+
+
 def check_push_param(run, f, cfg):
     try:
         body = nhir(f, PUSH_PARAM)
@@ -61,6 +107,9 @@ def check_push_param(run, f, cfg):
         run.anchor("C01.R2", "push_param", "fn %s not found" % PUSH_PARAM, cfg)
         return
     fn = f.fn(PUSH_PARAM)
+    if push_param_by_interp(run, f, cfg, fn):
+        run.floor("C01.R2", "push_param-paths", 2, 2, cfg)
+        return
     value_param = fn["params"][1]["pat"]
     if value_param.get("k") != "bind":
         run.anchor("C01.R2", "push_param.value", "parameter `value` is not a plain binding", cfg)
@@ -228,6 +277,18 @@ def check_who_may_write(run, f, cfg):
         "counter": {PUSH_PARAM}, "values": {PUSH_PARAM}, "string": {PUSH_PARAM, WRITE_STR},
         "placeholder": set(), "numbered": set(),
     }
+    # a private helper that only push_param calls is part of push_param (R2 interprets through it)
+    callers = {}
+    for name_, fn_ in f.fns.items():
+        if fn_.get("kind") == "fn" and fn_.get("hir") is not None:
+            for c_ in H.calls(fn_["hir"]):
+                for d_ in (c_.get("callee"), H.callee(c_)):
+                    if d_:
+                        callers.setdefault(d_, set()).add(name_)
+    for fld in ("counter", "values", "string"):
+        for h_, cs in callers.items():
+            if h_.startswith(SWV + "::") and h_ not in (PUSH_PARAM, WRITE_STR, NEW) and cs and cs <= {PUSH_PARAM} and not f.fns.get(h_, {}).get("pub"):
+                allowed[fld].add(h_)
     n = 0
     for m in M.field_mutations(f, SWV):
         fn = f.fns[m["fn"]]
